@@ -10,6 +10,7 @@ import os
 import queue
 import re
 import subprocess
+import sys
 import threading
 import time
 import typing as t
@@ -56,6 +57,47 @@ def g2(ty, args, *, handlers):
     return NotImplemented
 
 
+# the registry of global handlers is state as well: hR claims MyListR (otherwise an ordinary list subclass) once it
+# has been registered with register_converter_handler (the Register action of spec/PaneCache.tla)
+class MyListR(list):
+    pass
+
+
+vocab.SUB_CLASSES['MyListR'] = MyListR
+
+
+def hR(ty, args, *, handlers):
+    if ty is MyListR:
+        return _STR_CONV
+    return NotImplemented
+
+
+def registered() -> int:
+    pc = sys.modules['pane.convert']      # (the attribute pane.convert is the function of that name)
+    return 1 if hR in pc._GLOBAL_HANDLERS else 0
+
+
+def register_r() -> None:
+    from pane.convert import register_converter_handler
+    if not registered():
+        register_converter_handler(hR)
+
+
+def unregister_r() -> None:
+    """back to the empty registry at the start of a behaviour (there is no public way to take a handler back)"""
+    pc = sys.modules['pane.convert']      # (the attribute pane.convert is the function of that name)
+    was = hR in pc._GLOBAL_HANDLERS
+    while hR in pc._GLOBAL_HANDLERS:
+        pc._GLOBAL_HANDLERS.remove(hR)
+    if was:
+        # taking a handler back is not something the library offers (registries only grow): whatever was memoized while
+        # it was registered belongs to a world that no longer exists
+        try:
+            make_converter.cache.clear()
+        except Exception:  # noqa
+            pass
+
+
 class InnerG(pane.PaneBase, custom=g2):
     x: MyInt
 
@@ -82,6 +124,8 @@ def fresh_type(desc: str):
         return {'a': int}
     if desc == 'ClsCamel':
         return ClsCamel
+    if desc == 'MyListR':
+        return MyListR
     if desc == 'InnerG':
         return InnerG
     if desc == 'OuterH1':
@@ -95,7 +139,9 @@ def fresh_type(desc: str):
     raise KeyError(desc)
 
 
-def abstract_type(desc: str, h: str) -> dict:
+def abstract_type(desc: str, h: str, reg: int = 0) -> dict:
+    if desc == 'MyListR':
+        return T_STR if reg else {'k': 'sub', 'name': 'MyListR', 'base': {'k': 'list', 'e': {'k': 'any'}}}
     if desc == 'ListStr':
         return {'k': 'list', 'e': T_STR}
     if desc == 'DictStrFloat':
@@ -206,13 +252,16 @@ class Controller:
         self.kc.inner_f = self.orig_inner
 
 
-_ACT = re.compile(r'<(Alloc|Drop|Call|Probe|Build|Store|Return)\(([^)]*)\)')
+_ACT = re.compile(r'<(Alloc|Drop|Call|Probe|Build|Store|Return)\(([^)]*)\)|<(Register) line')
 
 
 def parse_behaviour(path: str) -> list:
     acts = []
     with open(path) as f:
         for m in _ACT.finditer(f.read()):
+            if m.group(3):
+                acts.append(('Register', []))
+                continue
             args = [x.strip().strip('"') for x in m.group(2).split(',')]
             acts.append((m.group(1), args))
     return acts
@@ -243,9 +292,13 @@ def replay(behaviours: list, stats: dict) -> tuple:
             objs: dict = {}      # model address -> [real object, descriptor]
             workers: dict = {}
             hist = []
+            unregister_r()
             for name, args in acts:
                 hist.append(f'{name}({",".join(args)})')
-                if name == 'Alloc':
+                if name == 'Register':
+                    register_r()
+                    stats['registrations'] = stats.get('registrations', 0) + 1
+                elif name == 'Alloc':
                     a, d = args
                     o = fresh_type(d)
                     prev = id_history.get(id(o))
@@ -265,7 +318,7 @@ def replay(behaviours: list, stats: dict) -> tuple:
                         stats['drift'] += 1
                         continue
                     w = Worker(ctl, t, objs[a][0], h)
-                    w.desc, w.h = objs[a][1], h
+                    w.desc, w.h, w.reg0 = objs[a][1], h, registered()
                     workers[t] = w
                     w.thread.start()
                     w.state = w.rep.get(timeout=30)     # 'key'
@@ -293,12 +346,17 @@ def replay(behaviours: list, stats: dict) -> tuple:
             objs.clear()
     finally:
         ctl.close()
+        unregister_r()
     return events, desc
 
 
 def _observe(w, events, desc, ident, bi, hist, stats):
     stats['lookups'] += 1
-    T = abstract_type(w.desc, w.h)
+    if registered() != w.reg0:
+        # a handler was registered while the call was in flight: either registry may be the one it used
+        stats['lookups_concurrent_with_registration'] = stats.get('lookups_concurrent_with_registration', 0) + 1
+        return ident
+    T = abstract_type(w.desc, w.h, w.reg0)
     if w.exc is not None:
         ident += 1
         events.append({'id': ident, 'op': 'from_data', 'ty': T, 'val': {'k': 'none'},
@@ -318,7 +376,7 @@ def sequential_histories(seed: int, n: int, length: int) -> tuple:
     short-lived type objects, through the public from_data."""
     import random
     rnd = random.Random(seed)
-    descs = ['ListStr', 'DictStrFloat', 'TupIntStr', 'ListMy', 'SetInt', 'StructAInt', 'ListUIF', 'ListUFI', 'ListLitFloat', 'ClsCamel', 'InnerG', 'OuterH1']
+    descs = ['ListStr', 'DictStrFloat', 'TupIntStr', 'ListMy', 'SetInt', 'StructAInt', 'ListUIF', 'ListUFI', 'ListLitFloat', 'ClsCamel', 'InnerG', 'OuterH1', 'MyListR']
     events, desc = [], {}
     ident = 10 ** 6
     stats = {'steps': 0, 'id_reused_for_other_type': 0}
@@ -326,10 +384,15 @@ def sequential_histories(seed: int, n: int, length: int) -> tuple:
     for hi in range(n):
         held: list = []
         hist = []
+        unregister_r()
         for _ in range(length):
             stats['steps'] += 1
             r = rnd.random()
-            if r < 0.45 or not held:
+            if r < 0.03 and not registered():
+                register_r()
+                hist.append('register the global handler')
+                stats['registrations'] = stats.get('registrations', 0) + 1
+            elif r < 0.45 or not held:
                 d = rnd.choice(descs)
                 o = fresh_type(d)
                 prev = id_history.get(id(o))
@@ -343,7 +406,7 @@ def sequential_histories(seed: int, n: int, length: int) -> tuple:
                 h = rnd.choice(['h0', 'h0', 'h1'])
                 p = rnd.choice(PROBES)
                 ident += 1
-                events.append({'id': ident, 'op': 'from_data', 'ty': abstract_type(d, h), 'val': vocab.abstract(p),
+                events.append({'id': ident, 'op': 'from_data', 'ty': abstract_type(d, h, registered()), 'val': vocab.abstract(p),
                                'out': outcome(pane.from_data, p, o, custom=HANDLERS[h]), 'rerun': 'T'})
                 hist.append(f'convert {p!r} to {d} [{h}]')
                 desc[ident] = {'behaviour': f'seq{hi}', 'history': list(hist), 'type': d, 'handlers': h, 'probe': repr(p)}
@@ -354,6 +417,7 @@ def sequential_histories(seed: int, n: int, length: int) -> tuple:
                 gc.collect()
                 hist.append('collect')
         held.clear()
+    unregister_r()
     return events, desc, stats
 
 
